@@ -1,6 +1,7 @@
 """Reader for parsing a DiffX file into DOM objects."""
 
-from pydiffx.errors import DiffXParseError
+from pydiffx.dom.properties import OptionProperty
+from pydiffx.errors import DiffXParseError, DiffXUnknownOptionError
 from pydiffx.reader import DiffXReader
 from pydiffx.sections import Section
 
@@ -199,7 +200,10 @@ class DiffXDOMReader(object):
             pydiffx.dom.objects.DiffXChangeSection:
             The new change section.
         """
-        return diffx.add_change(**section_info['options'])
+        change_section = diffx.add_change()
+        self._set_container_options(change_section, section_info['options'])
+
+        return change_section
 
     def _read_file_section(self, diffx, section, section_info):
         """Read a file section.
@@ -220,7 +224,48 @@ class DiffXDOMReader(object):
             pydiffx.dom.objects.DiffXFileSection:
             The new file section.
         """
-        return diffx.changes[-1].add_file(**section_info['options'])
+        file_section = diffx.changes[-1].add_file()
+        self._set_container_options(file_section, section_info['options'])
+
+        return file_section
+
+    def _set_container_options(self, section, options):
+        """Set options read from a header on a container section.
+
+        Only names that are options of the section can be set this way.
+        Names of other attributes of the section (such as its content
+        subsections) are not options.
+
+        Args:
+            section (pydiffx.dom.objects.BaseDiffXContainerSection):
+                The container section to set options on.
+
+            options (dict):
+                The options from the section header.
+
+        Raises:
+            pydiffx.errors.DiffXUnknownOptionError:
+                An option is not valid for the section.
+
+            pydiffx.errors.DiffXOptionValueError:
+                A value is not valid for the option.
+        """
+        for name, value in options.items():
+            # Look the name up on the classes themselves, without invoking
+            # any descriptor.
+            for cls in type(section).__mro__:
+                if name in cls.__dict__:
+                    is_option = isinstance(cls.__dict__[name], OptionProperty)
+                    break
+            else:
+                is_option = False
+
+            if not is_option:
+                raise DiffXUnknownOptionError(
+                    '"%s" is not a valid option or content section'
+                    % name)
+
+            setattr(section, name, value)
 
     def _set_content_options(self, section, options):
         options.pop('length', None)
